@@ -23,7 +23,7 @@ def main():
             na.append({'property_id': pid, 'reason': NOT_YET.get(pid, 'no solver-decided obligation built for this property yet (work in progress); nothing is claimed')})
             continue
         m = mod.MANIFEST
-        checks.append({
+        entry = {
             'property_id': pid,
             'quick_cmd': './check %s --tier quick' % pid,
             'thorough_cmd': './check %s --tier thorough' % pid,
@@ -33,7 +33,13 @@ def main():
             'level_claimed': {'category': 'model_checking', 'text': m['text'], 'design_ref': m.get('design_ref', 'DESIGN.md section 2, ' + pid)},
             'level_note': m['note'],
             'technique': m['technique'],
-        })
+        }
+        if pid in THOROUGH_NOT_VALIDATED:
+            # a thorough command is registered only once it ran end-to-end with exit 0 on the repaired tree (sized by total wall time)
+            del entry['thorough_cmd']
+            entry['level_note'] += ' The thorough tier of this property (./check %s --tier thorough: wider configurations, same harnesses) was not run ' \
+                                   'end-to-end within the build time and is therefore not registered.' % pid
+        checks.append(entry)
     man = {
         'version': 1,
         'setup_cmd': './setup.sh',
@@ -58,6 +64,8 @@ def main():
 
 
 NOT_YET = {}
+# measured end-to-end runs of the thorough tiers: see DESIGN.md A.7
+THOROUGH_NOT_VALIDATED = {'C08', 'C06', 'C04', 'C01', 'C10'}
 
 if __name__ == '__main__':
     main()
